@@ -117,6 +117,19 @@ Example C12_interleaving_nonvacuous :
     [("k", TList [TInt 1; TInt 2; TInt 7])].
 Proof. vm_compute. repeat split. Qed.
 
+(* a failing, swallowed step whose onError is a container: runErrors[-1]['customError'] is a
+   rebuilt copy; a later step grows it in place (py: runErrors[-1]['customError']['by'].append(5)) *)
+Definition run_err : runspec :=
+  mkrun [] [SaveError (TDict [("code", TInt 42); ("by", TList [])]);
+            BindPath "$t" "runErrors" [SLast; SKey "customError"; SKey "by"]; PyAppend "$t" 5;
+            Unset "$t"; Probe].
+Example C12_onError_nonvacuous :
+  let dh := fst (load defs0 []) in
+  o_final (snd (run1 dh run_err)) =
+    [("runErrors", TList [TDict [("customError", TDict [("code", TInt 42); ("by", TList [TInt 5])])]])] /\
+  nth_error (snd (history dh [run_err; run_err])) 0 = nth_error (snd (history dh [run_err; run_err])) 1.
+Proof. vm_compute. split; reflexivity. Qed.
+
 (* HISTORICAL witness (not a property of the current code): on the pre-d9572b0 machine
    [step_aliasing] the run `in: {k: [1, 2]}` + append 3 changed the definition heap, and the
    same run made again saw [1, 2, 3] instead of [1, 2]; on [step] it does not. *)
